@@ -126,6 +126,17 @@ theorem C34_partials_exact (f : Func) (ad : AD K) (J : Nat → Nat → Nat → N
   simp only [subjacEntry, hd, if_true, efcFwd_exact f ad J hJ u p r j hr hj,
     efcRev_exact f ad J hJ u p r j hr hj, and_self]
 
+/-- A function with one bare (non-tuple) return value: the fwd branch then iterates over the first
+axis of the single array (row by row, or entry by entry for a scalar) — the assembled array is the
+same exact jacobian. -/
+theorem C34_single_return_rows (f : Func) (ad : AD K) (J : Nat → Nat → Nat → Nat → K)
+    (hJ : IsJac f ad J) (p r j : Nat) (hr : r < f.retSize 0) (hj : j < f.colSize p) :
+    efcFwdSingle f ad r (offset f.colSizes p + j) = J 0 p r j := by
+  unfold efcFwdSingle
+  rw [fwdBlockSingle_eq _ _ _ _ _ _ _ (by rw [← retSize_eq f 0 r hr]; exact hr)
+    (offset_add_lt f.colSizes p j hj)]
+  exact jvp_eye f ad J hJ 0 p r j hj
+
 /-- A pair declared with `rows`/`cols` receives the exact partials at the listed positions. -/
 theorem C34_partials_sparse (f : Func) (ad : AD K) (J : Nat → Nat → Nat → Nat → K)
     (hJ : IsJac f ad J) (u p : Nat) (rows cols : List Nat)
@@ -265,6 +276,8 @@ example : exF.retSize 1 = 1 ∧ exF.colSize 2 = 4 ∧ exF.colSize 1 = 0 ∧
     efcFwd exF (exprAD ratAlg ratDeriv exF exX) 3 4 = 1 ∧
     efcRev exF (exprAD ratAlg ratDeriv exF exX) 3 4 = 1 ∧
     efcFwd exF (exprAD ratAlg ratDeriv exF exX) 1 1 = 8 ∧
+    efcFwdSingle { exF with rets := exF.rets.take 1 }
+      (exprAD ratAlg ratDeriv { exF with rets := exF.rets.take 1 } exX) 1 1 = 8 ∧
     efcRev exF (exprAD ratAlg ratDeriv exF exX) 3 0 = 100 ∧
     exactJ ratAlg ratDeriv exF exX 1 0 0 0 = 100 := by
   decide +kernel
